@@ -18,6 +18,7 @@ from yaql.language import expressions as E
 from yaql.language import lexer as L
 
 ID = 'C16'
+REPLAYS_LEMMAS = True
 KNOWN = set(H.P('known', ()))
 K_VERB = 'C16/verbatim-odd-backslash-run'
 
